@@ -542,6 +542,39 @@ pub fn run(rng: &mut Rng, out: &mut Out, thorough: bool, variant: &str) {
             emit(out, "random", &gen_bits(rng, len, style), rng, 3);
         }
     }
+    // the run-length block-filling rule at its edges (common::rl_directed): the run with the critical gap / length
+    // arrives with one code unit too few, exactly enough, one to spare; long ones on the primary variant only
+    for v in rl_unit_boundaries(4) {
+        if v > 600 && !primary {
+            continue;
+        }
+        for in_len in [false, true] {
+            for slack in [-1i64, 0, 1] {
+                if !thorough && slack == 1 && !rng.chance(1, 3) {
+                    continue;
+                }
+                let (_, mut runs) = rl_directed(rng, v, in_len, slack, 0, 3);
+                // keep the vector short: drop far-away trailing runs (at least one run follows the critical one)
+                while runs.len() >= 3 {
+                    let n = runs.len();
+                    if runs[n - 1].0 + runs[n - 1].1 > runs[n - 2].0 + runs[n - 2].1 + 700 && n >= 4 && runs[n - 2].0 > runs[n - 3].0 {
+                        runs.pop();
+                    } else {
+                        break;
+                    }
+                }
+                let last = runs[runs.len() - 1];
+                let len = last.0 + last.1 + rng.below(3) as usize;
+                let mut bits = vec![false; len];
+                for (s0, l0) in runs.iter() {
+                    for i in *s0..(*s0 + *l0) {
+                        bits[i] = true;
+                    }
+                }
+                emit(out, "rl_block_edge", &bits, rng, 1);
+            }
+        }
+    }
     // a few long ones (several RL blocks, several words of the sparse high part)
     let long_styles = [Style::Runs(4), Style::Sparse(9), Style::Half, Style::Dense(20), Style::Runs(60), Style::Sparse(400), Style::Ones, Style::Clusters];
     let nlong = if thorough { 32 } else if primary { 4 } else { 1 };
